@@ -120,11 +120,11 @@ func keysOf(m map[string][]byte) []string {
 }
 
 type c04case struct {
-	Paths  []string
-	Offset int
-	L      int
-	Conc   int
-	EPF    uint
+	Paths   []string
+	Offset  int
+	L       int
+	Conc    int
+	EPF     uint
 	LocalFS bool
 }
 
